@@ -4,6 +4,16 @@ import json, os
 HERE = os.path.dirname(os.path.dirname(os.path.abspath(__file__)))
 ALL = ["C%02d" % i for i in range(1, 21)]
 CHECKS = {
+ "C13": dict(
+   technique="TLA+ spec Layout.tla (re-layout operations as actions that change only the layout; line-map laws model-checked) composed with FortranScopes.tla programs: TLC enumerates op sequences per program size, the harness applies them to rendered programs and compares the server's outline+diagnostics dump of the re-laid-out file with the original's, lines mapped through the spec's LineMap",
+   text="Valid and single-defect programs x every sequence of <=2 operations (exhaustive per program size, sampled per program) and simulated compositions of 3: blank/comment lines, & continuations with/without leading &, ; joins, LF/CRLF/CR, case, trailing blanks.",
+   note="Trusted: TLC, layout applier, dump projection. A diagnostic of a statement spanning several physical lines may sit on any of them. Same-line ordering defects (';'-joined statements) and the free-form detection heuristic are recorded known findings.",
+   design="4/C13"),
+ "C14": dict(
+   technique="Layout.tla ToFixed action: every program is rendered as its fixed-form twin (column-1 comment flags C c * ! d, column-6 continuation) and the server's dump for the .f file is compared with the free-form original through the spec's LineMap; FortranFile.fixed must equal the spec's form",
+   text="Same programs and comparison as C13 with fixed-form layouts (blank/comment/continuation compositions of <=3 plus ToFixed); every free-form layout of C13 must be classified free.",
+   note="Trusted as C13. Not yet modelled: numeric statement labels / labelled DO termination.",
+   design="4/C14"),
  "C03": dict(
    technique="inputs enumerated by TLC from FortranScopes.tla (all prefixes of valid programs; all sequences of the robust statement alphabet) and Preproc.tla (directive files with open conditionals), plus seeded mutations; each text indexed by a live server in killable workers; recorded add_scope/end_scope traces validated by TLC against FortranScopesTrace.tla",
    text="Every text must be indexed without exception within the CPU bound, leave no 'parsing failed' message, answer documentSymbol/definition/hover/completion/diagnostics without internal error, and its scope push/pop trace must satisfy the stack discipline (LIFO, first line <= last line, nothing left open at end of file).",
